@@ -54,6 +54,35 @@ def plan(tier, seed):
             for r in roots[:2]:
                 for is_async in (False, True):
                     jobs.append((d, [("exnew", 1, 3, -1, -1, -1, m([last]), 1), ("exrun", 3, full, 1), ("restart", 1, 1, m([r])), ("call", 1, full)], is_async, "thread"))
+        # cache_deps_of naming SEVERAL nodes, one of which may depend on another: the file holds what they depend on and none
+        # of their own results (CacheDepsContent of Lifecycle.tla is a set operation), and a restart executes them all
+        nonsetup = [k for k in range(1, D["n"] + 1) if D["kind"][k - 1] != "setup"]
+        if len(nonsetup) >= 2:
+            full = [10 + p for p in range(D["np"])]
+            m = lambda S: sum(1 << (k - 1) for k in S)  # noqa: E731
+            pairs = [(a, b) for a in nonsetup for b in nonsetup if a < b]
+            for (a, b) in pairs[:8]:
+                for is_async in (False, True):
+                    jobs.append((d, [("exnew", 1, 3, -1, -1, -1, m([a, b]), 1), ("exrun", 3, full, 1), ("restart", 1, 1), ("restart", 1, 1, -1, -1, -1, m([a, b])),
+                                     ("call", 1, full)], is_async, "thread"))
+        readers = [k for k in range(1, D["n"] + 1) if D["argof"][k - 1]]
+        if readers:
+            # a caching run that leaves a node that reads a DAG input (and what depends on it) out of the file, then a restart
+            # called with other arguments: the node is executed with the arguments of the restart
+            full = [10 + p for p in range(D["np"])]
+            m = lambda S: sum(1 << (k - 1) for k in S)  # noqa: E731
+            for k in readers[:3]:
+                for is_async in (False, True):
+                    jobs.append((d, [("exnew", 1, 3, -1, -1, -1, m([k]), 1), ("exrun", 3, full, 1), ("restart", 1, 1, -1, -1, -1, -1, 1), ("call", 1, full)], is_async, "thread"))
+                    jobs.append((d, [("exnew", 1, 3, -1, -1, -1, m([k]), 1), ("exrun", 3, full, 1), ("restart", 1, 1, -1, -1, -1, m([k]), 1)], is_async, "thread"))
+        if any(k == "setup" for k in D["kind"]):
+            # a restart on an instance that has computed nothing yet (a copy made before the caching run): the setup results
+            # the restart takes from the file are results of that instance from then on, in both flavours - the call that
+            # follows executes no setup node
+            full = [10 + p for p in range(D["np"])]
+            for is_async in (False, True):
+                for tail in ([("call", 2, full)], [("setup", 2, -1, -1, -1), ("call", 2, full)], [("exnew", 2, 2), ("exrun", 2, full)]):
+                    jobs.append((d, [("copy", 1, 2), ("exnew", 1, 3, -1, -1, -1, -1, 1), ("exrun", 3, full, 1), ("restart", 2, 1)] + tail, is_async, "thread"))
         if any(k == "setup" for k in D["kind"]):
             # a setup() that fails (its first setup node raises), then the instance is set up and called as usual
             full = [10 + p for p in range(D["np"])]
@@ -71,6 +100,23 @@ def plan(tier, seed):
                     for sres in ("thread", "async"):
                         jobs.append((d, pre + [("copy", 1, 2), ("gsetup", 1, 2), ("call", 1, full), ("call", 2, full)], is_async, sres))
     return jobs
+
+
+def attach_twins(res):
+    """C17: where the same history was run on both flavours (the deterministic jobs are), every event of the AsyncDAG history
+    carries what the DAG history did at that operation (tw = [out, executed, stored keys]); LifecycleTrace.tla compares."""
+    sync = {}
+    for r in res:
+        if not r["async"] and r["ev"] and not any(e["op"] == "harness-error" for e in r["ev"]):
+            sync.setdefault((r["d"], json.dumps(r["ops"], sort_keys=True), r.get("sres", "thread")), r)
+    for r in res:
+        twin = sync.get((r["d"], json.dumps(r["ops"], sort_keys=True), r.get("sres", "thread"))) if r["async"] else None
+        same = twin is not None and len(twin["ev"]) == len(r["ev"]) and all(a["op"] == b["op"] for a, b in zip(twin["ev"], r["ev"]))
+        for k, e in enumerate(r["ev"]):
+            if e["op"] == "harness-error":
+                continue
+            t = twin["ev"][k] if same else None
+            e["tw"] = [t["out"], t["e"], t["keys"]] if t is not None else [-9, 0, 0]
 
 
 def model_histories(tier, seed):
@@ -197,6 +243,7 @@ def run(tier, seed, log=common.say):
             drift.append({"history": [[r["op"], r["i"], r["x"], r["S"], r["f"], r["fc"], r["ok"]] for r in h], "async": rec["async"], "differences": d[:3]})
     herr = [r for r in res if any(e["op"] == "harness-error" for e in r["ev"])]
     skipped = sum(1 for r in res if r.get("skipped"))
+    attach_twins(res)
     seen = {}
     for r in res:
         if not r["ev"] or r in herr:
@@ -242,8 +289,9 @@ def run(tier, seed, log=common.say):
     return out
 
 
-NONTRIVIAL = {"C09": "ops", "C17": "ops", "C11": "setupskip", "C15": "reuse", "C18": "restart", "C03": "ops", "C12": "ops", "C14": "failed", "C19": "ops", "C01": "defaults"}
-RULE = {"C09": "all histories (every operation must return or raise)", "C17": "all histories",
+NONTRIVIAL = {"C09": "ops", "C17": "twin", "C11": "setupskip", "C15": "reuse", "C18": "restart", "C03": "ops", "C12": "ops", "C14": "failed", "C19": "ops", "C01": "defaults", "C02": "altrestart"}
+RULE = {"C02": "restarts from a cache file called with other arguments than the run that wrote it, in which a node that reads a DAG input was executed",
+        "C09": "all histories (every operation must return or raise)", "C17": "operations of AsyncDAG histories whose twin history on the DAG built from the same function was run too (outcome, executed nodes and stored results compared operation by operation)",
         "C11": "histories in which an execution found setup values already computed on its instance",
         "C15": "histories in which an executor object was run a second time",
         "C18": "histories with a restart from a cache file",
@@ -307,6 +355,10 @@ def replay(payload, log=common.say):
     import e4_driver as ed
 
     ev = ed.run_history(ed.TEMPLATES[payload["d"] - 1], payload["ops"], payload.get("async", False), payload.get("sres", "thread"))
+    recs = [{"d": payload["d"], "ops": payload["ops"], "async": bool(payload.get("async", False)), "sres": payload.get("sres", "thread"), "ev": ev}]
+    if recs[0]["async"]:
+        recs.append(dict(recs[0], **{"async": False, "ev": ed.run_history(ed.TEMPLATES[payload["d"] - 1], payload["ops"], False, payload.get("sres", "thread"))}))
+    attach_twins(recs)
     traces = [{"tid": 1, "d": payload["d"], "ev": ev}]
     verdicts, _, _, errs = validate(traces, ed.TEMPLATES)
     if errs:
